@@ -220,12 +220,34 @@ Definition echo4 (views : vv) (npending : nat) : res echo_out :=
      binary.BigEndian.PutUint32(upperLayerLength[:], uint32(len(h)+vv.Size()))
      xsum = header.Checksum(upperLayerLength[:], xsum)
      xsum = header.Checksum([]byte{0, 0, 0, uint8(header.ICMPv6ProtocolNumber)}, xsum)
-     for _, v := range vv.Views() { xsum = header.Checksum(v, xsum) }
+     // Sum the payload as one byte string: header.Checksum pads a buffer of
+     // odd length, so summing view by view is wrong whenever a view other
+     // than the last one has an odd length.
+     xsum = header.Checksum(vv.ToView(), xsum)
      h2, h3 := h[2], h[3]; h[2], h[3] = 0, 0
      xsum = ^header.Checksum(h, xsum)
      h[2], h[3] = h2, h3
-     return xsum } *)
+     return xsum }
+   (the text since /repo commit 1404d7f) *)
 Definition icmp6Checksum (h src dst : list Z) (views : vv) : option Z :=
+  let xsum := checksum src 0 in
+  let xsum := checksum dst xsum in
+  upper <- put32 (repeat 0 4) 0 (w32 (Z.of_nat (length h) + vv_size views)) ;;
+  let xsum := checksum upper xsum in
+  let xsum := checksum [0; 0; 0; 58] xsum in
+  let xsum := checksum (vv_toView views) xsum in
+  h0 <- upd h 2 0 ;;
+  h0 <- upd h0 3 0 ;;
+  Some (lnot16 (checksum h0 xsum)).
+
+(* the text before 1404d7f (kept only for EchoP.echo6_odd_chunk_old_refuted_l): the payload was
+   summed view by view,
+     for _, v := range vv.Views() { xsum = header.Checksum(v, xsum) }
+   and header.Checksum pads every odd-length buffer with a zero byte of its own, so a view of odd
+   length that is not the last one shifted everything behind it by one byte in the sum.  (Like the
+   Go function it sets h[2:4] aside, so it can be applied to a header that already carries a
+   checksum.) *)
+Definition icmp6Checksum_old (h src dst : list Z) (views : vv) : option Z :=
   let xsum := checksum src 0 in
   let xsum := checksum dst xsum in
   upper <- put32 (repeat 0 4) 0 (w32 (Z.of_nat (length h) + vv_size views)) ;;
@@ -296,6 +318,18 @@ Definition echo6 (r : route) (views : vv) : res echo_out :=
   | Some (A6Reply p) => Ok (EReply (p_msg p))
   | Some _ => Ok EIgnored
   end.
+
+(* the statements of the EchoRequest branch above as they ran before 1404d7f, i.e. with
+   [icmp6Checksum_old] (for a message that reached the branch: type 128, 8 bytes in the first view);
+   kept only for EchoP.echo6_odd_chunk_old_refuted_l *)
+Definition echo6_reply_old (r : route) (views : vv) : option packet :=
+  let v := vv_first views in
+  let rest := vv_trimFront views 8 in
+  pkt <- copy_into (repeat 0 8) 0 8 v ;;
+  pkt <- put8 pkt 0 129 ;;
+  c <- icmp6Checksum_old pkt (r_local r) (r_remote r) rest ;;
+  pkt <- put16 pkt 2 c ;;
+  Some (mkPacket (r_local r) (r_remote r) 255 58 pkt (vv_toView rest)).
 
 (* ------------------------------------------------------------------ inbound path to handleICMP *)
 Fixpoint bytes_eqb (a b : list Z) : bool :=
